@@ -8,6 +8,7 @@ import DafRel.Lemmas.SqlTransfer
 
 namespace DafRel
 
+
 theorem backtrack_sql (st : Store) (fuel : Nat) (op : AnyOp) (t : Rel) (pref : Engine) (hk : t.engine.kind = .sql) :
     backtrack st (fuel+1) op t pref = .ok (.same, false) := by
   rw [backtrack.eq_def]
@@ -19,7 +20,7 @@ theorem applyOp_sql_target_sound (σ : Leaves) (st : Store) (fuel : Nat) (o : UO
     (hs : ∀ p, opts.pref = some p → transferSimplify p t = none)
     (h : applyOp st (fuel+1) (.u o) t opts = .ok res) : ApplyOK σ o t (res.get t) opts := by
   have hkt : t.engine.kind = .sql := Rel.RawSql.engine t hraw
-  have gt : Good σ t := raw_good σ t hwf htr hraw
+  have gt : Good NodeInv.triv σ t := raw_good σ t hwf htr hraw
   rw [applyOp_eq_spec] at h
   unfold applyOpSpec at h
   cases hb : o.beginApply t opts.pref with
@@ -35,7 +36,7 @@ theorem applyOp_sql_target_sound (σ : Leaves) (st : Store) (fuel : Nat) (o : UO
     apply applyOK_of_begin σ o o' t _ opts hwf htr hcases
     -- the final `append_unary` on a relation `x` with the right content
     have finish : ∀ (base : Res) (x : Rel) (r : Res), base.get t = x → x.WF → x.Truthful σ →
-        (x.engine.kind = .sql → Good σ x) → o'.wfOn x.columns = true →
+        (x.engine.kind = .sql → Good NodeInv.triv σ x) → o'.wfOn x.columns = true →
         sem σ x = sem σ t → (∀ c, c ∈ x.columns ↔ c ∈ t.columns) →
         (x.engine = t.engine ∨ (opts.transfer = true ∧ opts.pref = some x.engine)) →
         (match appendUnary st fuel (.u o') x with
@@ -120,12 +121,13 @@ end DafRel
 
 namespace DafRel
 
+
 /-- **`apply` on an iteration-engine target with a preferred engine of EITHER family, back-tracking
 allowed, no transfer** (the default `transfer=False`): back-tracking may insert the operation below a
 transfer that leads into a SQL engine, where the SQL engine's own `apply` takes over. -/
 theorem applyOp_iter_target_anypref_sound (σ : Leaves) (st : Store) (fuel : Nat) (o : UOp) (t : Rel) (opts : Opts)
     (res : Res) (hkt : t.engine.kind = .iter) (hwf : t.WF) (htr : t.Truthful σ)
-    (hnd : o.isProj = true → t.spineNoDedup) (hpo : ∀ p, opts.pref = some p → t.prefTargetsGood σ p)
+    (hnd : o.isProj = true → t.spineNoDedup) (hpo : ∀ p, opts.pref = some p → t.prefTargetsGood NodeInv.triv σ p)
     (htf : opts.transfer = false)
     (h : applyOp st (fuel+1) (.u o) t opts = .ok res) : ApplyOK σ o t (res.get t) opts := by
   rw [applyOp_eq_spec] at h
@@ -172,7 +174,7 @@ theorem applyOp_iter_target_anypref_sound (σ : Leaves) (st : Store) (fuel : Nat
     · simp only [he, if_true] at h
       exact finish .same t res rfl hkt hwf htr ho'wf rfl (fun _ => Iff.rfl) rfl h
     · simp only [he, Bool.false_eq_true, if_false] at h
-      have hpo' : t.prefTargetsGood σ pref := by
+      have hpo' : t.prefTargetsGood NodeInv.triv σ pref := by
         rcases hpref with h1 | h1
         · exact absurd (by simp [h1]) he
         · exact hpo pref h1
